@@ -230,3 +230,20 @@ CHECKS["C19"] = {
         rapid_job("concurrent", "./verifh/c19", "TestElectricConcurrent", 500, 4000, shards_t=8),
     ],
 }
+
+CHECKS["C20"] = {
+    "rule": ("per-model rapid operation sequences against small executable specifications: parent (set union/difference of trait names from a 6-name pool over 2 children), vending (initial stock with any "
+             "subset of used/remaining present and unit pairs across and within categories; dispense arithmetic in each quantity's own unit, conversion errors reported and stock unchanged; "
+             "WithInitialConsumable/WithInitialStock land where they say; Convert round-trips), fan speed (random preset tables; preset/index/percentage updates masked, nil-mask full and nil-mask "
+             "partial, relative RPC updates; table consistency after every success), mode (random mode tables; initial = first given value; relative steps wrap both ways), enter/leave (the three "
+             "documented total rules, reset, Pull seed == Get), meter (start<=end, end=now after record, start kept, reset => 0 and start=end=now), publication (version is a function of content, "
+             "publish time on change, receipt reset, stale version => FailedPrecondition and unchanged, acknowledge protocol incl. allow_acknowledged); no operation may panic. "
+             "non-trivial per model: parent - removal of an absent name sorting before a present one; vending - remaining without used or differing units; fan speed - a partial nil-mask/relative update; "
+             "mode - a wrapping step or several modes; publication - at least one acknowledge; distinct by configuration + operation sequence"),
+    "assumptions": ["vending arithmetic is compared with 1e-4 relative tolerance (float32 storage)", "the unimplemented ReverseFanSpeedDirection RPC is not one of the operations"],
+    "jobs": [
+        rapid_job("parent-vending", "./verifh/c20", "TestParentTraits|TestVendingDispense|TestVendingConfigAndUnits", 10000, 40000),
+        rapid_job("fan-mode", "./verifh/c20", "TestFanSpeedConsistency|TestModeRelativeSteps", 10000, 40000),
+        rapid_job("el-meter-pub", "./verifh/c20", "TestEnterLeaveTotals|TestMeterTimes|TestPublicationVersions", 10000, 40000),
+    ],
+}
